@@ -302,6 +302,10 @@ def robustness_grid(da, rng: random.Random, tier_: str, out: Outcome) -> list[di
                 else:
                     r = c.get(url)
             status = r.status_code
+            if not isinstance(status, int) or not 100 <= status <= 599:
+                # not an HTTP status at all (a number taken from the query string became the status line): an uncontrolled failure
+                da.exceptions.append({'type': 'InvalidStatus', 'msg': str(status)[:40], 'where': 'response'})
+                status = 599
         except Exception as err:      # noqa: BLE001
             status = 599
             da.exceptions.append({'type': type(err).__name__, 'msg': str(err)[:200], 'where': 'client'})
